@@ -470,7 +470,13 @@ pub fn gen_world(rng: &mut Rng, cfg: &WorldCfg) -> GWorld {
                     m.insert(p.version.clone(), mk(rng));
                 }
             }
-            PackagePolicyEntry::Versioned { version: m }
+            // an empty version map cannot be produced by parsing a file (it serialises to an
+            // empty `[policy]` table that reads back as "no policy")
+            if m.is_empty() {
+                PackagePolicyEntry::Unversioned(mk(rng))
+            } else {
+                PackagePolicyEntry::Versioned { version: m }
+            }
         } else {
             PackagePolicyEntry::Unversioned(mk(rng))
         };
